@@ -15,6 +15,9 @@
 (***************************************************************************)
 EXTENDS AlgebraModel, PolyRing, Json, IOUtils
 
+MI == INSTANCE MultivectorRef WITH
+        CZero <- 0, COne <- 1, CAdd <- LAMBDA a, b : a + b, CMul <- LAMBDA a, b : a * b,
+        CNeg <- LAMBDA a : 0 - a, CEq <- LAMBDA a, b : a = b, CScale <- LAMBDA k, a : k * a
 MR == INSTANCE MultivectorRef WITH
         CZero <- RZero, COne <- ROne, CAdd <- RAdd, CMul <- RMul, CNeg <- RNeg, CEq <- REq, CScale <- RScale
 
@@ -60,6 +63,15 @@ MatrixRepVerdict(e) ==
                 \/ x.back.keys # m.order
                 \/ \E i \in DOMAIN m.order : x.back.coefs[i] # FoldSet(LAMBDA k, acc : IF x.keys[k] = m.order[i] THEN acc + x.coefs[k] ELSE acc, 0, DOMAIN x.keys)
        THEN "asmatrix_not_linear_or_frommatrix_does_not_invert_it"
+  \* the clause as stated, on the library's own matrices: x.asmatrix() @ y.asmatrix() (numpy) = (x*y).asmatrix(), and both are
+  \* the linear combination of the blade matrices with the coefficients of the REFERENCE product (larger integer coefficients:
+  \* the entries must not wrap or overflow)
+  ELSE IF \E s \in DOMAIN e.pairs :
+            LET pr == e.pairs[s]
+                want == MI!GP(c, MI!FromKV(d, pr.x.keys, pr.x.coefs), MI!FromKV(d, pr.y.keys, pr.y.coefs))
+                wantAt(i, j) == FoldSet(LAMBDA B, acc : acc + want[B] * At(F[B], i, j), 0, Blades(d))
+            IN  pr.raised # "" \/ \E i, j \in 0 .. n - 1 : At(AsFun(pr.matmul), i, j) # wantAt(i, j) \/ At(AsFun(pr.ofprod), i, j) # wantAt(i, j)
+       THEN "product_of_the_matrices_is_not_the_matrix_of_the_product"
   ELSE "ok"
 
 \* JSON program tree -> record tree
